@@ -516,3 +516,37 @@ def check_seq_hier(merge=True, variant='dual_clock'):
             if sim.inspect('o') != exp:
                 return dict(failed=True, observed=dict(inputs=(x, y, z), o=sim.inspect('o')), expected=exp, blif=blif)
     return dict(failed=False, observed='ok', expected='ok')
+
+
+def check_import_history(merge=True):
+    """several imports in one process: a netlist imported with another clock name / with a buffered clock, then an
+    unrelated netlist whose ordinary data inputs carry those names - nothing may be remembered from an earlier import"""
+    import pyrtl
+    first = (".model a\n.inputs strobe d\n.outputs q t\n.names strobe tick\n1 1\n.latch d q re strobe 0\n"
+             ".names d t\n0 1\n.end\n")
+    pyrtl.reset_working_block()
+    try:
+        with contextlib.redirect_stdout(io.StringIO()):
+            pyrtl.input_from_blif(first, merge_io_vectors=merge, clock_name='strobe')
+    except Exception as e:
+        return dict(failed=True, observed='first import: %s: %s' % (type(e).__name__, str(e)[:100]), expected='imports')
+    second = (".model b\n.inputs clk strobe tick x\n.outputs y z\n.latch x r re clk 1\n"
+              ".names strobe tick r y\n1-1 1\n-11 1\n.names strobe x z\n10 1\n01 1\n.end\n")
+    try:
+        _import_blif(second, merge)
+        sim = pyrtl.Simulation()
+    except Exception as e:
+        return dict(failed=True, observed='second import: %s: %s' % (type(e).__name__, str(e)[:120]),
+                    expected='imports: strobe and tick are ordinary inputs of this netlist')
+    r = 1
+    for strobe, tick, x in itertools.product([0, 1], repeat=3):
+        try:
+            sim.step(dict(strobe=strobe, tick=tick, x=x))
+        except Exception as e:
+            return dict(failed=True, observed='%s: %s' % (type(e).__name__, str(e)[:120]), expected='simulates')
+        exp = dict(y=int((strobe or tick) and r), z=strobe ^ x)
+        got = {k: sim.inspect(k) for k in exp}
+        if got != exp:
+            return dict(failed=True, observed=dict(inputs=(strobe, tick, x), **got), expected=exp)
+        r = x
+    return dict(failed=False, observed='ok', expected='ok')
